@@ -285,7 +285,7 @@ func (rc *CRespCodec) parseLine(buf *codec.Buffer) ([]byte, error) {
 	case '$':
 		n, err := parseLen(line[1:])
 		if n < 0 || err != nil {
-			return nil, err
+			return nil, codec.ErrInvalidResp
 		}
 		b, err := buf.ReadN(n)
 		if err != nil {
